@@ -188,6 +188,16 @@ func SemanticFacts(f *hc.Facts) {
 	wf := f.FuncDecl(dir, "writeFull")
 	f.TranslateExpr("fullWire", dir, callArg(f, wf, "write.PutInt", 0, func(a string) bool { return strings.Contains(a, "b.Len()") }), "Int", []string{"len"}, map[string]string{"b.Len()": "len"}, "writeFull: the length word")
 
+	// Full.Write: validate → take the counter → write (statement order, interpreted by the model:
+	// when the counter is taken first, a rejected write consumes a sequence number)
+	after := false
+	if fw := f.FuncDecl(dir, "Full.Write"); fw != nil && fw.Body != nil {
+		chk := topIndex(fw, func(s ast.Stmt) bool { return containsCall(f, s, "checkOutgoingMessage(") })
+		seq := topIndex(fw, func(s ast.Stmt) bool { return strings.Contains(hc.Squash(f.Src(s)), "atomic.AddInt64(&i.wSeqNo") })
+		after = chk >= 0 && seq >= 0 && chk < seq
+	}
+	f.Bool("fullSeqAfterCheck", after, "Full.Write: atomic.AddInt64(&i.wSeqNo, …) comes in a later top-level statement than checkOutgoingMessage")
+
 	// ---- padded_intermediate.go / intermediate.go
 	wp := f.FuncDecl(dir, "writePaddedIntermediate")
 	f.TranslateExpr("padOf", dir, assignRHS(wp, "n"), "Int", []string{"last"}, map[string]string{"b.Buf[length-1]": "last"}, "writePaddedIntermediate: number of padding bytes from the last payload byte")
